@@ -21,13 +21,18 @@ pub fn verif_write<W: Write>(w: &mut W) -> (r: std::io::Result<()>)
 { unimplemented!() }
 
 // `map.keys().cloned().collect::<Vec<usize>>()`: std documents `BTreeMap::keys` as "an iterator over the keys of the
-// map, in sorted order"; cloned + collected they are the domain of the map as a strictly ascending vector.
+// map, in sorted order"; cloned + collected they are `keys_asc`: the domain of the map as a strictly ascending sequence.
+pub uninterp spec fn keys_asc<V>(m: Map<usize, V>) -> Seq<usize>;
+#[verifier::external_body]
+pub proof fn axiom_keys_asc<V>(m: Map<usize, V>)
+    ensures
+        forall|i: int| 0 <= i < keys_asc(m).len() ==> m.dom().contains(#[trigger] keys_asc(m)[i]),
+        forall|k: usize| m.dom().contains(k) ==> exists|i: int| 0 <= i < keys_asc(m).len() && #[trigger] keys_asc(m)[i] == k,
+        forall|i: int, j: int| 0 <= i < j < keys_asc(m).len() ==> keys_asc(m)[i] < keys_asc(m)[j],
+{ }
 #[verifier::external_body]
 pub fn verif_btree_keys_vec<V>(map: &std::collections::BTreeMap<usize, V>) -> (r: Vec<usize>)
-    ensures
-        forall|i: int| 0 <= i < r@.len() ==> map@.dom().contains(#[trigger] r@[i]),
-        forall|k: usize| map@.dom().contains(k) ==> exists|i: int| 0 <= i < r@.len() && #[trigger] r@[i] == k,
-        forall|i: int, j: int| 0 <= i < j < r@.len() ==> r@[i] < r@[j],
+    ensures r@ == keys_asc(map@),
 { unimplemented!() }
 
 // std `<[T]>::reverse` (through Vec's DerefMut): "reverses the order of elements in the slice, in place".
